@@ -25,8 +25,8 @@ def cfg(mode, *, nconds, grid='GridA', catalogue='CatAll', offs='OffsNeg', npart
              f'  Mode = "{mode}"', f'  ChanOffsets <- {offs}', f'  NParts = {nparts}', f'  NSims = {nsims}',
              '  Signals <- Sig3', '  NoiseRoots <- Roots', f'  KeepMod = {keepmod}', f'  Salt = {salt}',
              'INIT Init', 'NEXT Next']
-    lines += [f'INVARIANT {i}' for i in ('DesignOk', 'GramOk', 'SignalOk', 'Contract', 'SameSignal', 'DrawCount',
-                                         'NoiseRelation')]
+    lines += [f'INVARIANT {i}' for i in ('DesignOk', 'GramOk', 'SignalOk', 'Contract', 'EncContract', 'SameSignal',
+                                         'DrawCount', 'NoiseRelation', 'NoiseStructure')]
     if mode == 'design':
         lines = [x for x in lines if not x.startswith('INVARIANT')] + ['INVARIANT DesignSweepOk', 'INVARIANT EmitDesign']
     elif emit:
@@ -127,11 +127,21 @@ def by_condition_rdm(ds, design, labels):
 
 
 def build_model(model_vec, variant):
-    from rsatoolbox.model import ModelFixed, ModelWeighted
+    """every model class of rsatoolbox.model, parametrised so that model.predict(theta) is the emitted RDM"""
+    from rsatoolbox.model import ModelFixed, ModelWeighted, ModelSelect, ModelInterpolate
     v = np.asarray(model_vec, dtype=float)
-    if variant % 3 == 2:
-        return ModelWeighted('w', np.array([0.25 * v, 0.75 * v])), np.array([1.0, 1.0])
-    return ModelFixed('m', v), None
+    k = variant % 6
+    if k == 2:
+        model, theta = ModelWeighted('w', np.array([0.25 * v, 0.75 * v])), np.array([1.0, 1.0])
+    elif k == 4:
+        model, theta = ModelSelect('s', np.array([v + 1.0, v, 2.0 * v])), 1
+    elif k == 5:
+        model, theta = ModelInterpolate('i', np.array([0.5 * v, 2.0 * v, 3.0 * v])), np.array([2.0 / 3.0, 1.0 / 3.0, 0.0])
+    else:
+        model, theta = ModelFixed('m', v), None
+    if not np.allclose(model.predict(theta), v, rtol=1e-12, atol=1e-12):
+        raise AssertionError('driver: model.predict(theta) is not the emitted model RDM')
+    return model, theta
 
 
 def check_case(rec, seed, variant=0, consistency=True):
@@ -173,7 +183,10 @@ def check_case(rec, seed, variant=0, consistency=True):
         cond_in = labels.astype(float) if variant % 2 else labels.astype(int)
     Z = np.asarray(rec['Z'], dtype=float)
     arg = cond_in if rec['design'] == 'vector' else Z
-    col_labels = np.argmax(Z, axis=1)
+    enc = rec['design'] == 'encoding'
+    n_obs = int(rec.get('nobs', n * n_part))
+    # design matrix: by-condition labels = column of each row's 1; encoding design: RDM by observation
+    col_labels = np.arange(n_obs) if enc else np.argmax(Z, axis=1)
     model, theta = build_model(model_vec, variant)
     kw = dict(n_channel=P, n_sim=n_sim, signal=sig, use_exact_signal=True, use_same_signal=bool(rec['same']))
     if rec['covsig']:
@@ -206,7 +219,7 @@ def check_case(rec, seed, variant=0, consistency=True):
         return bad, unsup, nev, {}
     for k, ds in enumerate(data0):
         m = np.asarray(ds.measurements)
-        if m.shape != (n * n_part, P):
+        if m.shape != (n_obs, P):
             bad.append(('c/shape', 'measurements are not n_obs x n_channel', {**case, 'shape': list(m.shape)}))
             return bad, unsup, nev, {}
         cv = ds.obs_descriptors.get('cond_vec')
@@ -218,7 +231,8 @@ def check_case(rec, seed, variant=0, consistency=True):
                         {**case, 'sim': k, 'got': None if cv is None else np.asarray(cv).tolist()}))
             break
         d = ds.descriptors
-        th_ok = (d.get('theta') is None) if theta is None else np.array_equal(np.asarray(d.get('theta')), theta)
+        th_ok = (d.get('theta') is None) if theta is None else (
+            d.get('theta') is not None and np.array_equal(np.asarray(d.get('theta')), np.asarray(theta)))
         if not (d.get('signal') == sig and d.get('noise') == 0 and d.get('model') == model.name and th_ok):
             bad.append(('c/descriptors', 'dataset descriptors do not carry the simulation parameters '
                         '(signal, noise, model name, theta)',
@@ -247,12 +261,12 @@ def check_case(rec, seed, variant=0, consistency=True):
         unsup.append(('ill-conditioned-draw', 'seeded draw with a pivot < 1e-3: RDM identity not compared'))
     elif rec['demanded']:
         expect = np.array([a / b for a, b in rec['rdm']], dtype=float)
-        if consistency and not np.allclose(expect, sig * model_vec, rtol=1e-12, atol=0):
+        if consistency and not enc and not np.allclose(expect, sig * model_vec, rtol=1e-12, atol=0):
             raise AssertionError('specification inconsistent: emitted rdm != sig * model')
         scale = float(expect.max()) if len(expect) else 0.0
         for k, ds in enumerate(data0):
             try:
-                got, note = by_condition_rdm(ds, rec['design'], col_labels)
+                got, note = by_condition_rdm(ds, 'matrix' if enc else rec['design'], col_labels)
                 if note:
                     unsup.append(note)
             except Exception as e:
@@ -268,12 +282,14 @@ def check_case(rec, seed, variant=0, consistency=True):
             rel = err / scale if scale > 0 else err
             info['err'] = max(info['err'], rel if rec['cls'] != 'early-dependent' else 0.0)
             if not rel <= RTOL_RDM:
-                bad.append((f'a/rdm/{rec["cls"]}', 'squared-euclidean RDM by condition of exact-signal, zero-noise data '
+                bad.append((f'enc/rdm/{rec["cls"]}' if enc else f'a/rdm/{rec["cls"]}',
+                            'encoding design: RDM by observation differs from signal (z_a - z_b)^T G (z_a - z_b)' if enc else
+                            'squared-euclidean RDM by condition of exact-signal, zero-noise data '
                             'differs from signal * model RDM (relative to the largest entry; tolerance 1e-5)',
                             {**case, 'sim': k, 'expected': expect.tolist(), 'got': np.asarray(got).tolist(),
                              'rel_err': rel}))
                 break
-        if rec['design'] == 'matrix' and variant % 8 == 1:
+        if rec['design'] != 'vector' and variant % 8 == 1:
             # observation only: calc_rdm on the dataset as returned (2-d obs descriptor)
             try:
                 import rsatoolbox
@@ -356,7 +372,102 @@ def check_case(rec, seed, variant=0, consistency=True):
                     bad.append(('e/noise-cov/ignored', 'a non-identity noise_cov_channel leaves the noise term unchanged', case))
             except Exception as e:
                 bad.append((f'e/make_dataset/raises/{type(e).__name__}', f'make_dataset with noise covariance raises {e!r}', case))
+        # covariance of the noise across TRIALS (documented: n_obs x n_obs).  Same convention-free relations, and
+        # the square-root scaling with the variance must survive the structure
+        if rec.get('tcov') and not bad:
+            St = spd(n_obs, 13)
+            try:
+                tS, _ = call(1, **{**nk, 'noise_cov_trial': St})
+                nev += 1
+            except Exception as e:
+                bad.append((f'e/noise-cov-trial/rejected/{type(e).__name__}',
+                            f'make_dataset rejects a noise_cov_trial of the documented shape n_obs x n_obs: {e!r}',
+                            {**case, 'n_obs': n_obs, 'n_channel': P}))
+                return bad, unsup, nev, info
+            try:
+                tI, _ = call(1, **{**nk, 'noise_cov_trial': np.eye(n_obs)})
+                t4, _ = call(1, **{**nk, 'noise_cov_trial': 4.0 * St})
+                tv, _ = call(v, **{**nk, 'noise_cov_trial': St})
+                nev += 3
+                a0 = np.asarray(d0[0].measurements)
+                tol = 1e-9 * max(1.0, float(np.abs(a0).max()))
+                nS = np.asarray(tS[0].measurements) - a0
+                if not np.allclose(np.asarray(tI[0].measurements), np.asarray(d1[0].measurements), rtol=1e-9, atol=tol):
+                    bad.append(('e/noise-cov-trial/identity', 'an identity noise_cov_trial changes the noise term', case))
+                elif not np.allclose(np.asarray(t4[0].measurements) - a0, 2.0 * nS, rtol=1e-9, atol=tol):
+                    bad.append(('e/noise-cov-trial/scaling', 'noise term for trial covariance 4 S is not twice the term for S', case))
+                elif not np.allclose(np.asarray(tv[0].measurements) - a0, root * nS, rtol=1e-9, atol=tol):
+                    bad.append(('e/noise-cov-trial/variance', 'with a trial covariance the noise term does not scale with '
+                                'sqrt(variance)', case))
+                elif n_obs > 1 and np.allclose(nS, np.asarray(d1[0].measurements) - a0, rtol=1e-6, atol=1e-9):
+                    bad.append(('e/noise-cov-trial/ignored', 'a non-identity noise_cov_trial leaves the noise term unchanged', case))
+            except Exception as e:
+                bad.append((f'e/make_dataset/raises/{type(e).__name__}', f'make_dataset with trial covariance raises {e!r}', case))
     return bad, unsup, nev, info
+
+
+def check_make_signal(rec, seed):
+    """make_signal(G, n_channel, make_exact, chol_channel) directly, G exact from the specification (2 n^2 G emitted
+    as integers): shape n_cond x n_channel in every branch; make_exact: U U^T = n_channel G (n_channel >= n_cond);
+    not exact: U = A W with A A^T = G, W the centred normal draw (n_channel > n_cond); chol_channel given:
+    U = U(no chol) @ chol_channel under the same draw (what the docstring and the code say)."""
+    import scipy.stats as ss
+    from rsatoolbox.simulation import make_signal
+    n, P = rec['n'], rec['P']
+    G = np.asarray(rec['gram2'], dtype=float) / (2.0 * n * n)
+    scale = max(float(np.abs(G).max()), 1e-300)
+    case = {'n': n, 'P': P, 'pts': rec['pts'], 'seed': seed}
+    bad = []
+    shape = (n, max(n, P))
+    out = {}
+    for exact in (True, False):
+        for chol in (None, np.linalg.cholesky(spd(P, 5))):
+            with forced(seed, shape) as f:
+                try:
+                    U = make_signal(G.copy(), P, exact, chol)
+                except Exception as e:
+                    if chol is not None and P < n:
+                        continue            # chol_channel with n_channel < n_cond: shapes cannot match (not demanded)
+                    return [(f's/make_signal/raises/{type(e).__name__}', f'make_signal raises {e!r}',
+                             {**case, 'make_exact': exact, 'chol': chol is not None})], 0
+            out[(exact, chol is not None)] = (U, f)
+            if np.asarray(U).shape != (n, P):
+                return [('s/make_signal/shape', 'make_signal does not return n_cond x n_channel',
+                         {**case, 'shape': list(np.asarray(U).shape), 'make_exact': exact})], len(out)
+            if f.calls != [shape]:
+                bad.append(('s/make_signal/draws', 'make_signal does not draw one n_cond x max(n_cond, n_channel) matrix',
+                            {**case, 'calls': f.calls}))
+    if bad:
+        return bad, len(out)
+    if P >= n:
+        U = out[(True, False)][0]
+        if not np.allclose(U @ U.T / P, G, rtol=0, atol=RTOL_RDM * scale):
+            bad.append(('s/make_signal/exact', 'make_exact: U U^T / n_channel differs from G', {**case,
+                        'err': float(np.abs(U @ U.T / P - G).max() / scale)}))
+    if P >= n + 1:
+        U, f = out[(False, False)]
+        W = ss.norm.ppf(f.values[0])
+        W = W - W.mean(axis=1, keepdims=True)
+        A = U @ np.linalg.pinv(W)
+        if not np.allclose(A @ A.T, G, rtol=0, atol=1e-6 * scale):
+            bad.append(('s/make_signal/not-exact', 'make_exact=False: the signal is not (a square root of G) x the centred '
+                        'normal draw', {**case, 'err': float(np.abs(A @ A.T - G).max() / scale)}))
+    # the draw is centred per condition before it is used (both modes): without a channel covariance every pattern
+    # of the signal has zero mean across the channels it was drawn for (n_channel >= n_cond: no truncation)
+    if P >= n:
+        for exact in (True, False):
+            U = out[(exact, False)][0]
+            if not np.allclose(U.sum(axis=1), 0, atol=1e-7 * np.sqrt(scale) * P):
+                bad.append(('s/make_signal/zero-mean', 'signal patterns do not have zero mean across channels (the draw '
+                            'is centred per condition)', {**case, 'make_exact': exact,
+                                                          'row_sums': U.sum(axis=1).tolist()}))
+                break
+    for exact in (True, False):
+        if (exact, True) in out and (exact, False) in out:
+            chol = np.linalg.cholesky(spd(P, 5))
+            if not np.allclose(out[(exact, True)][0], out[(exact, False)][0] @ chol, rtol=1e-9, atol=1e-9 * np.sqrt(scale * P)):
+                bad.append(('s/make_signal/chol_channel', 'chol_channel: the signal is not U @ chol_channel', {**case, 'make_exact': exact}))
+    return bad, len(out)
 
 
 def check_design(rec):
@@ -408,3 +519,48 @@ def float_noise_case(seed):
                         {'seed': seed, 'variance': v, 'n': n, 'P': P, 'kw': {a: repr(b)[:40] for a, b in kw.items()}}))
             break
     return bad
+
+
+def check_error_branches():
+    """the documented rejections of make_dataset: cond_vec with more than two dimensions, channel covariances of
+    the wrong shape -> ValueError"""
+    from rsatoolbox.simulation import make_design, make_dataset
+    from rsatoolbox.model import ModelFixed
+    M = ModelFixed('m', np.array([1.0, 4.0, 1.0]))
+    cv, _ = make_design(3, 2)
+    bad = []
+    for name, args, kw in (('cond_vec-3d', (M, None, np.zeros((6, 3, 1))), dict(n_channel=4)),
+                           ('signal_cov_channel-shape', (M, None, cv), dict(n_channel=4, signal_cov_channel=np.eye(5))),
+                           ('noise_cov_channel-shape', (M, None, cv), dict(n_channel=4, noise_cov_channel=np.eye(3)))):
+        try:
+            make_dataset(*args, **kw)
+            bad.append((f'x/rejects/{name}', f'make_dataset accepts an argument it documents as invalid ({name})', {}))
+        except ValueError:
+            pass
+        except Exception as e:
+            bad.append((f'x/rejects/{name}/{type(e).__name__}', f'make_dataset fails with {e!r} instead of ValueError', {}))
+    return bad
+
+
+def observe_channel_factor():
+    """observation only (the property does not fix the factor): which factor of noise_cov_channel multiplies the
+    noise rows.  Rows eps @ M have covariance M^T M; the documented covariance S = L L^T needs M = L^T."""
+    import scipy.stats as ss
+    from rsatoolbox.simulation import make_design, make_dataset
+    from rsatoolbox.model import ModelFixed
+    M = ModelFixed('m', np.array([1.0, 4.0, 1.0]))
+    cv, _ = make_design(3, 2)
+    S0 = spd(4, 2)
+    L = np.linalg.cholesky(S0)
+    out = []
+    for noise in (0, 1):
+        with forced(7) as f:
+            out.append((make_dataset(M, None, cv, n_channel=4, noise=noise, noise_cov_channel=S0)[0], f))
+    N = np.asarray(out[1][0].measurements) - np.asarray(out[0][0].measurements)
+    W = ss.norm.ppf(out[1][1].values[-1])
+    if np.allclose(N, W @ L.T, atol=1e-9):
+        return 'noise rows = eps @ L^T: row covariance L L^T = the documented noise_cov_channel'
+    if np.allclose(N, W @ L, atol=1e-9):
+        return ('noise rows = eps @ L (lower Cholesky factor on the right): row covariance is L^T L, not the documented '
+                'Sigma = L L^T; the trial side (L_t @ eps) is as documented.  Not demanded by C18 - observation only')
+    return 'noise rows are neither eps @ L nor eps @ L^T'
